@@ -2,7 +2,8 @@
 From Coq Require Import NArith ZArith Arith List Uint63 Bool.
 From Coq.Strings Require Import Byte.
 From LOF Require Export Corr.Common Model.Build.
-From LOF Require Import Base.Bytes Base.Res Model.Wire Model.Build Model.Parse Proofs.ParseRtAll6P Proofs.ParseRtAll7P.
+From LOF Require Export Model.BuildSw.
+From LOF Require Import Base.Bytes Base.Res Model.Wire Model.Build Model.Proto Model.Parse Proofs.ParseRtAll6P Proofs.ParseRtAll7P Proofs.ParseSwAll3P.
 Import ListNotations.
 Open Scope N_scope.
 
@@ -20,6 +21,8 @@ Inductive caseD :=
 (* a spec-conformant switch message: [known] names the finding whose signature the generator
    gave this frame (0 = none) *)
 | Sw (input : list int) (outcome : int) (reenc : list int) (lenv same known : int)
+(* the same with the value as a recipe (Model/BuildSw.v) *)
+| SwR (xid : N) (s : swrec) (input : list int) (outcome : int) (reenc : list int) (lenv same known : int)
 (* C12: the frame, the outcome, the re-encoding and Len() of the parsed message AFTER its input
    buffer was overwritten, whether all fields / the encoding are what they were before *)
 (* an input too large to evaluate the model on at this tier: the implementation's outcome only *)
@@ -95,8 +98,47 @@ Definition check05 (c : caseD) : verdict :=
 Definition is_echo_with_body (d : list byte) : bool :=
   match d with _ :: ty :: _ => (N.eqb (b2n ty) 2 || N.eqb (b2n ty) 3) && (8 <? length d)%nat | _ => false end.
 
+(* the payload of a packet-in as the packet decoder reads it (None: no payload) *)
+Definition eth_of (pl : list byte) : option tree :=
+  match pl with [] => None | _ => match dec_eth pl with Ok e => Some e | _ => None end end.
+
+(* where the general theorem of C04 (Properties/C04.v) applies - its hypothesis sw_ok holds and a
+   packet-in's payload is a packet the packet decoder reads back - it predicts the bytes the
+   independent Go encoder wrote (= the model's conformant frame) and that the parse succeeds *)
+Fixpoint tree_eqb' (fuel : nat) (a b : tree) : bool :=
+  match fuel with
+  | O => false
+  | S f =>
+    match a, b with
+    | T ka va kidsa, T kb vb kidsb =>
+      bytes_eqb (wire (T ka va [])) (wire (T kb vb [])) &&
+      (fix go (x y : list tree) : bool := match x, y with [] , [] => true | p :: x', q :: y' => tree_eqb' f p q && go x' y' | _, _ => false end) kidsa kidsb
+    end
+  end.
+Definition payload_ok (s : swrec) : bool :=
+  match s with
+  | SPacketIn _ _ _ _ _ _ (Some e) =>
+    match dec_eth (wire e) with Ok e' => tree_eqb' 50 e e' | _ => false end &&
+    negb (match wire e with [] => true | _ => false end) && (size e <? 30000) && tree_eqb' 50 (norm e) e
+  | _ => true
+  end.
+Definition thm_hyp04 (c : caseD) : bool :=
+  match c with SwR x s _ _ _ _ _ _ => sw_ok s && payload_ok s && (x <? 4294967296) | _ => false end.
+Definition theorem_predicts04 (x : N) (s : swrec) (d : list byte) (oc : N) : bool :=
+  negb (sw_ok s && payload_ok s && (x <? 4294967296)) || (bytes_eqb (wire (sw_tree x s)) d && N.eqb oc 0).
+
+Definition check04_with (predicted : bool) (input : list int) (oc : int) (re : list int) (lenv same known : int) : verdict :=
+    let d := unpack input in
+    let agree := model_agrees d (n_of oc) (unpack re) (n_of lenv) true && predicted in
+    let accept := N.eqb (n_of oc) 0 && N.eqb (n_of same) 1 in
+    if accept then mkv agree true
+    else if agree && N.eqb (n_of known) 37 && is_echo_with_body d && N.eqb (n_of oc) 0 then VKnown 37
+    else if agree && N.eqb (n_of known) 13 && is_d13 d then VKnown 13
+    else mkv agree false.
+
 Definition check04 (c : caseD) : verdict :=
   match c with
+  | SwR x s input oc re lenv same known => check04_with (theorem_predicts04 x s (unpack input) (n_of oc)) input oc re lenv same known
   | Sw input oc re lenv same known =>
     let d := unpack input in
     let agree := model_agrees d (n_of oc) (unpack re) (n_of lenv) true in
@@ -120,3 +162,4 @@ Definition check12 (c : caseD) : verdict :=
     else mkv agree (N.eqb (n_of oc) 1)
   | _ => VBad
   end.
+
